@@ -2699,6 +2699,14 @@ func (s *Server) serveConnCounted(c net.Conn, countConcurrency bool) error {
 				bw = acquireWriter(ctx)
 			}
 			verifPoint("srv.beforeWrite")
+			if ctx.Response.bodyStream != nil && bw.Buffered() > 0 {
+				// Writing a body stream may fail midway, which aborts the connection
+				// without flushing. Don't lose the complete responses to earlier
+				// pipelined requests that are still buffered.
+				if err = bw.Flush(); err != nil {
+					break
+				}
+			}
 			if err = writeResponse(ctx, bw); err != nil {
 				break
 			}
